@@ -30,7 +30,12 @@ AlphaMore ==
      MkBytes(2, EmptyP), MkVar(3, 1, 1, 0), MkVar(0, 1, 1, 0), MkBytes(4, ExplicitP(<<>>)), MkBytes(4, ExplicitP(<<1, 0, 0>>)),
      MkBytes(4, ExplicitP(<<1, 9>>)), MkBytes(4, ExplicitP(<<5>>)), MkRec(7, 1), MkBytes(7, P1),
      MkMsg(6, <<MkVar(3, 1, 1, 0)>>), MkMsg(6, <<MkVar(1, 1, 1, 1)>>)}
-Alphabet == IF AlphabetSel = 0 THEN AlphaCore ELSE AlphaCore \cup AlphaMore
+\* one letter per kind of deviation (for longer encodings)
+AlphaTiny ==
+    {MkVar(1, 1, 1, 0), MkVar(2, 1, 1, 1), MkVar(2, 0, 1, 0), [MkVar(2, 1, 1, 0) EXCEPT !.vx = 1], MkBytes(3, P1),
+     MkBytes(4, ExplicitP(<<0, 0>>)), MkBytes(4, ExplicitP(<<7, 0>>)), MkBytes(4, ExplicitP(<<0>>)), MkBytes(5, EmptyP),
+     MkVar(7, 1, 1, 0), MkMsg(6, <<>>), MkMsg(6, <<MkVar(1, 1, 1, 0)>>)}
+Alphabet == IF AlphabetSel = 0 THEN AlphaCore ELSE IF AlphabetSel = 1 THEN AlphaCore \cup AlphaMore ELSE AlphaTiny
 
 VARIABLES e, delta, done, res
 vars == <<e, delta, done, res>>
